@@ -56,6 +56,32 @@ func traps() []*Scenario {
 			set(o1, "a.t", "TXT", 1, "z"), set(o1, "a.t", "TXT", 2, "w"), set(o1, "a.t", "TXT", 1, "x"), del(o1, "a.t", "TXT"),
 			add(o1, "a.t", "CNAME", "b.t"), add(o1, "a.t", "CNAME", "a.u"), set(o1, "a.t", "CNAME", 0, "a.u"), del(o1, "a.t", "SOA"),
 			add(o1, "a.t", "SOA", "x"), add(o1, "a.t", "BAD", "x"), del(o1, "a.t", "BAD")}},
+		// setRecord against the values of the OTHER indexes in both directions (lower -> higher, higher -> lower),
+		// its own value, a new value; for a registered name and for sub-names one and two levels below the token;
+		// the single-CNAME rule through setRecord; delete and re-add (seeded change C12c-setrecord-scan-stops)
+		func() *Scenario {
+			sc := &Scenario{CN: 3, Src: "trap:setrecorddirs", Steps: []Step{reg(o1, "a.t", "o1", 30)}}
+			for _, nt := range [][2]string{{"a.t", "TXT"}, {"b.a.t", "A"}, {"c.b.a.t", "TXT"}} {
+				n, ty := nt[0], nt[1]
+				v := []string{"a", "b", "c", "d"}
+				if ty == "A" {
+					v = []string{"9.9.9.1", "9.9.9.2", "9.9.9.3", "9.9.9.4"}
+				}
+				sc.Steps = append(sc.Steps, add(o1, n, ty, v[0]), add(o1, n, ty, v[1]), add(o1, n, ty, v[2]),
+					set(o1, n, ty, 0, v[1]) /* held at 1 (higher): refused */, set(o1, n, ty, 0, v[2]) /* held at 2: refused */,
+					set(o1, n, ty, 1, v[2]) /* refused */, set(o1, n, ty, 2, v[0]) /* held at 0 (lower): refused */,
+					set(o1, n, ty, 1, v[0]) /* refused */, set(o1, n, ty, 2, v[1]) /* refused */,
+					set(o1, n, ty, 1, v[1]) /* own value: accepted */, set(o1, n, ty, 1, v[3]) /* new: accepted */,
+					add(o1, n, ty, v[3]) /* present at 1: refused */, add(o1, n, ty, v[1]) /* free again: id 3 */,
+					set(o1, n, ty, 0, v[1]) /* held at 3: refused */, set(o1, n, ty, 3, v[0]) /* held at 0: refused */,
+					del(o1, n, ty), set(o1, n, ty, 0, v[0]) /* invalid id */, add(o1, n, ty, v[2]), add(o1, n, ty, v[0]),
+					set(o1, n, ty, 0, v[0]) /* held at 1: refused */, set(o1, n, ty, 1, v[2]) /* held at 0: refused */)
+			}
+			sc.Steps = append(sc.Steps, add(o1, "a.t", "CNAME", "b.t"), set(o1, "a.t", "CNAME", 0, "a.u"), set(o1, "a.t", "CNAME", 0, "a.u"),
+				set(o1, "a.t", "CNAME", 1, "b.t") /* invalid id */, add(o1, "a.t", "CNAME", "b.t") /* second CNAME: refused */,
+				del(o1, "a.t", "CNAME"), add(o1, "a.t", "CNAME", "b.t"))
+			return sc
+		}(),
 		// expiry boundary hit exactly (instants exp-1, exp, exp+1), takeover by another owner, renew bounds
 		{CN: 4, Src: "trap:expiry", Steps: []Step{
 			reg(o1, "a.t", "o1", 2) /* at 1, exp 9 */, add(o1, "a.t", "A", "1.1.1.1"), setAdmin(s("o1", "o3"), "a.t", "o3"), tick(3),
@@ -86,8 +112,12 @@ func traps() []*Scenario {
 			for i := 0; i < 18; i++ {
 				sc.Steps = append(sc.Steps, add(o1, "b.a.t", "TXT", "v"+strconv.Itoa(i)))
 			}
-			sc.Steps = append(sc.Steps, set(o1, "b.a.t", "TXT", 15, "w"), set(o1, "b.a.t", "TXT", 16, "w"), add(o1, "b.a.t", "TXT", "v3"),
-				del(o1, "b.a.t", "TXT"), add(o1, "b.a.t", "TXT", "v16"))
+			sc.Steps = append(sc.Steps, set(o1, "b.a.t", "TXT", 15, "v0") /* held at 0: refused */, set(o1, "b.a.t", "TXT", 0, "v15") /* held at 15: refused */,
+				set(o1, "b.a.t", "TXT", 7, "v8"), set(o1, "b.a.t", "TXT", 8, "v7"), set(o1, "b.a.t", "TXT", 15, "v15") /* own value */,
+				set(o1, "b.a.t", "TXT", 15, "w"), set(o1, "b.a.t", "TXT", 16, "w"), set(o1, "b.a.t", "TXT", 0, "w") /* held at 15 now */,
+				add(o1, "b.a.t", "TXT", "v3"), add(o1, "b.a.t", "TXT", "w"), add(o1, "b.a.t", "TXT", "v15") /* free value, full list */,
+				del(o1, "b.a.t", "TXT"), set(o1, "b.a.t", "TXT", 0, "v0") /* emptied: invalid id */, add(o1, "b.a.t", "TXT", "v16"),
+				add(o1, "b.a.t", "TXT", "v0"), set(o1, "b.a.t", "TXT", 0, "v0"), set(o1, "b.a.t", "TXT", 1, "v16"))
 			return sc
 		}(),
 		// a contract as owner and admin; the committee as owner; TLD expiry and re-registration
@@ -277,7 +307,11 @@ func (m *gmodel) apply(st Step) {
 				m.recs[k] = append(l, st.D)
 			}
 		case "setRecord":
-			if okTy && int(st.X) < len(l) {
+			dup := false
+			for i, d := range l {
+				dup = dup || (int64(i) != st.X && d == st.D)
+			}
+			if okTy && st.X >= 0 && int(st.X) < len(l) && !dup {
 				l[st.X] = st.D
 			}
 		default:
@@ -456,7 +490,9 @@ func randScenario(r *rand.Rand) *Scenario {
 		}
 		return S, via
 	}
-	if r.Intn(3) > 0 {
+	// one scenario out of three concentrates on record lists (see recordStep below)
+	recMode := r.Intn(3) == 0
+	if recMode || r.Intn(3) > 0 {
 		accts := []string{"o1", "o2", "o3", pick([]string{"kc", "CMT"})}
 		r.Shuffle(len(accts), func(i, j int) { accts[i], accts[j] = accts[j], accts[i] })
 		tower := []string{"a.t", "b.a.t", "c.b.a.t", "d.c.b.a.t"}[:2+r.Intn(3)]
@@ -465,7 +501,11 @@ func randScenario(r *rand.Rand) *Scenario {
 			if i > 0 {
 				par = accts[i-1]
 			}
-			st := reg(nil, n, accts[i], int64(8+r.Intn(5)))
+			x := int64(8 + r.Intn(5))
+			if recMode {
+				x = 30 // the lists must outlive the scenario
+			}
+			st := reg(nil, n, accts[i], x)
 			st.S, st.Via = sigOf(par, accts[i])
 			emit(st)
 		}
@@ -518,8 +558,148 @@ func randScenario(r *rand.Rand) *Scenario {
 		}
 		return pick(c)
 	}
+	// ---- record lists: values are drawn relative to what the list holds, in every direction ----
+	val := func(ty string, k int) string {
+		switch ty {
+		case "A":
+			return "9.9.9." + strconv.Itoa(k+1)
+		case "AAAA":
+			return "2001:470::" + strconv.FormatInt(int64(k+1), 16)
+		case "CNAME":
+			return ntNames[k%len(ntNames)]
+		}
+		return "v" + strconv.Itoa(k)
+	}
+	fresh := func(ty string, l []string) string {
+		for k := 0; ; k++ {
+			v, used := val(ty, k), false
+			for _, d := range l {
+				used = used || d == v
+			}
+			if !used {
+				return v
+			}
+		}
+	}
+	// signers of a record step: mostly an authorised set, otherwise drawn by role
+	auth := func(st Step) Step {
+		if a := m.authSets(st); len(a) > 0 && r.Intn(8) > 0 {
+			st.S, st.Via = sigOf(a[r.Intn(len(a))]...)
+			return st
+		}
+		return m.sign(r, st)
+	}
+	// the lists that are addressable now: token|name|type with token = current token of name
+	lists := func(min int) [][3]string {
+		var ks []string
+		for k, l := range m.recs {
+			if f := strings.Split(k, "|"); len(l) >= min && m.alive(f[0]) && m.token(f[1]) == f[0] {
+				ks = append(ks, k)
+			}
+		}
+		sort.Strings(ks)
+		out := make([][3]string, len(ks))
+		for i, k := range ks {
+			f := strings.Split(k, "|")
+			out[i] = [3]string{f[0], f[1], f[2]}
+		}
+		return out
+	}
+	listOf := func(k [3]string) []string { return m.recs[k[0]+"|"+k[1]+"|"+k[2]] }
+	// a registered name or a sub-name one or two levels below a live token
+	recName := func() string {
+		var c []string
+		for _, n := range ntNames {
+			if t := m.token(n); m.alive(t) && m.ancOK(t) {
+				c = append(c, n)
+			}
+		}
+		if len(c) == 0 {
+			return pick(ntNames)
+		}
+		return pick(c)
+	}
+	burst := func() { // grow one list to 2..17 entries
+		n, ty := recName(), pick([]string{"TXT", "TXT", "A", "AAAA"})
+		want := []int{2, 2, 3, 3, 4, 5, 8, 15, 16, 17}[r.Intn(10)]
+		for i := 0; i < want; i++ {
+			emit(auth(add(nil, n, ty, fresh(ty, m.recs[m.token(n)+"|"+n+"|"+ty]))))
+		}
+	}
+	recordStep := func() {
+		ls := lists(1)
+		if len(ls) == 0 {
+			ty := pick([]string{"TXT", "A", "AAAA", "CNAME"})
+			emit(auth(add(nil, recName(), ty, val(ty, r.Intn(3)))))
+			return
+		}
+		k := ls[r.Intn(len(ls))]
+		if big := lists(2); len(big) > 0 && r.Intn(4) > 0 {
+			k = big[r.Intn(len(big))]
+		}
+		n, ty, l := k[1], k[2], listOf(k)
+		other := func(i int) string { // the value held at another index: lower or higher, both directions
+			if len(l) < 2 {
+				return fresh(ty, l)
+			}
+			j := r.Intn(len(l) - 1)
+			if j >= i {
+				j++
+			}
+			return l[j]
+		}
+		idx := func() int { // bias to the ends of the list
+			switch r.Intn(4) {
+			case 0:
+				return 0
+			case 1:
+				return len(l) - 1
+			}
+			return r.Intn(len(l))
+		}
+		switch c := r.Intn(20); {
+		case c < 8: // replace by the value of another index (must be refused)
+			i := idx()
+			emit(auth(set(nil, n, ty, int64(i), other(i))))
+		case c < 10: // replace a record by its own value (accepted)
+			i := idx()
+			emit(auth(set(nil, n, ty, int64(i), l[i])))
+		case c < 13: // replace by a new value
+			emit(auth(set(nil, n, ty, int64(idx()), fresh(ty, l))))
+		case c < 14: // an index behind the end / behind the limit
+			emit(auth(set(nil, n, ty, int64(len(l)+r.Intn(2)*(16-len(l))), fresh(ty, l))))
+		case c < 16: // add a value present at any index (refused) ...
+			emit(auth(add(nil, n, ty, l[r.Intn(len(l))])))
+		case c < 17: // ... or a new one (refused when the list is full or a CNAME exists)
+			emit(auth(add(nil, n, ty, fresh(ty, l))))
+		case c < 19: // delete the type, address the emptied list, re-add old values from id 0 on
+			old := append([]string{}, l...)
+			emit(auth(del(nil, n, ty)))
+			emit(auth(set(nil, n, ty, 0, old[0])))
+			for i := len(old) - 1; i >= 0 && i >= len(old)-1-r.Intn(3); i-- {
+				emit(auth(add(nil, n, ty, old[i])))
+			}
+			if len(old) > 1 {
+				emit(auth(set(nil, n, ty, 0, old[len(old)-2]))) // held at a higher index now
+			}
+		default: // the single-CNAME rule through add and set
+			emit(auth(add(nil, n, "CNAME", pick(ntNames))))
+			emit(auth(add(nil, n, "CNAME", pick(ntNames))))
+			emit(auth(set(nil, n, "CNAME", int64(r.Intn(2)), pick(ntNames))))
+		}
+	}
+	if recMode {
+		burst()
+		if r.Intn(2) == 0 {
+			burst()
+		}
+	}
 	nsteps := 14 + r.Intn(26)
 	for i := 0; i < nsteps; i++ {
+		if (recMode && r.Intn(3) > 0) || (!recMode && r.Intn(8) == 0) {
+			recordStep()
+			continue
+		}
 		switch k := r.Intn(32); {
 		case k < 2:
 			emit(tick(int64(1 + r.Intn(9))))
